@@ -1,13 +1,20 @@
 import NdnModel.SvsBytes
 /-  Line protocol for the SVS model:
     `C18 <selfIdHex> <seq0> <ev>;<ev>;…`   ev ::= r:<entry>|<entry>…  | r:  | u | p | t | b:<componentHex>[=<lib>]
+                                                  | c<k>:<componentHex>[=<lib>] | x<k>:<componentHex>[=<lib>]
     entry ::= <idHex or ~>/<seq or ~>
+    `c<k>:` / `x<k>:` = `b:` with an application callback that calls new_data() k times and then returns / raises.
+    Every event is run through the statement-level model `Ndn.Svs.stepXB` (handler statement by statement,
+    next_sync_timing / timer_rst_event in the state, then the timer task).
     `b:` carries the bytes of the name component `name[-2]`; the model decodes them itself
     (`Ndn.Svs.stepBytes`: generic TLV decoder over the regenerated StateVecWrapper schema); the optional
     `=<lib>` is what the library's own decoder made of the same bytes (r:<entries> | x:<class>) — a token
     is prefixed `DECODER-MISMATCH:` when the model's decoder disagrees with it.
-    answer: one token per event  `<outs>@<local>[#<emittedHex>,…]`
-      outs ::= - | M | E(<vec>) joined by +  |  !<exception class> (the handler raised; `b:` only)
+    answer: one token per event  `<outs>@<local>~<state><due>[*][#<emittedHex>,…]`
+      outs ::= - | M | E(<vec>) joined by +, followed by `!callback` when the callback's exception propagated
+               |  !<exception class> (the decoder's exception propagated; nothing happened)
+      state ::= T (SyncSteady) | S (SyncSuppression);  due ::= s (a steady period) | u (a suppression period) | n (now);
+      `*` = timer_rst_event still set after the timer task ran
       after `#`: for every emitted vector the bytes of the name component the sync Interest carries
       (`Ndn.Svs.encodeVector`), or `err:<class>` -/
 namespace Ndn.Drv.C18
@@ -43,7 +50,16 @@ def agrees (comp : Bytes) : Expect → Bool
   | .decoded es => match decodeVectorE comp with | .ok es' => es' == es | .error _ => false
   | .raises c => match decodeVectorE comp with | .ok _ => false | .error e => e.name == c
 
-def parseEv (s : String) : Option (EvB × Option Expect) :=
+def parseRaw (s : String) (cb : Cb) : Option (EvXB × Option Expect) :=
+  match s.splitOn "=" with
+  | [h] => (fromHex h).map fun b => (.raw b cb, none)
+  | [h, x] => do
+    let b ← fromHex h
+    let e ← parseExpect x
+    pure (.raw b cb, some e)
+  | _ => none
+
+def parseEv (s : String) : Option (EvXB × Option Expect) :=
   if s == "u" then some (.ev .undecodable, none)
   else if s == "p" then some (.ev .publish, none)
   else if s == "t" then some (.ev .timer, none)
@@ -51,13 +67,12 @@ def parseEv (s : String) : Option (EvB × Option Expect) :=
     let body := (s.drop 2).toString
     if body == "" then some (.ev (.recv []), none)
     else (body.splitOn "|").mapM parseEntry |>.map (fun es => (.ev (.recv es), none))
-  else if s.startsWith "b:" then
-    match (s.drop 2).toString.splitOn "=" with
-    | [h] => (fromHex h).map fun b => (.raw b, none)
-    | [h, x] => do
-      let b ← fromHex h
-      let e ← parseExpect x
-      pure (.raw b, some e)
+  else if s.startsWith "b:" then parseRaw (s.drop 2).toString ⟨0, false⟩
+  else if s.startsWith "c" || s.startsWith "x" then
+    match (s.drop 1).toString.splitOn ":" with
+    | k :: rest => if rest.isEmpty then none else do
+      let n ← k.toNat?
+      parseRaw (":".intercalate rest) ⟨n, s.startsWith "x"⟩
     | _ => none
   else none
 
@@ -67,26 +82,31 @@ def showEmitted : Out → List String
     | .ok b => [toHex b]
     | .error e => ["err:" ++ e.name]
 
-def runShow (s : State) : List (EvB × Option Expect) → List String
+def showTimer (t : TState) : String :=
+  (if t.st.suppress then "S" else "T") ++
+  (match t.due with | .steady => "s" | .sup => "u" | .now => "n") ++ (if t.rst then "*" else "")
+
+def runShow (t : TState) : List (EvXB × Option Expect) → List String
   | [] => []
   | (e, x) :: r =>
-    let (s', res) := stepB s e
+    let (t', res) := stepXB t e
     let bad := match e, x with
-      | .raw comp, some ex => !agrees comp ex
+      | .raw comp _, some ex => !agrees comp ex
       | _, _ => false
+    let tail := "@" ++ showVec t'.st.loc ++ "~" ++ showTimer t'
     let tok := match res with
-      | .error x => "!" ++ x.name ++ "@" ++ showVec s'.loc
+      | .error x => "!" ++ x.name ++ tail
       | .ok o =>
-        let os := if o.isEmpty then "-" else "+".intercalate (o.map showOut)
-        let em := o.flatMap showEmitted
-        os ++ "@" ++ showVec s'.loc ++ (if em.isEmpty then "" else "#" ++ ",".intercalate em)
-    (if bad then "DECODER-MISMATCH:" ++ tok else tok) :: runShow s' r
+        let os := if o.outs.isEmpty then "-" else "+".intercalate (o.outs.map showOut)
+        let em := o.outs.flatMap showEmitted
+        os ++ (if o.raised then "!callback" else "") ++ tail ++ (if em.isEmpty then "" else "#" ++ ",".intercalate em)
+    (if bad then "DECODER-MISMATCH:" ++ tok else tok) :: runShow t' r
 
 def handle (args : List String) : String :=
   match args with
   | [sid, seq0, evs] =>
     match fromHex sid, seq0.toNat?, (if evs == "." then some [] else (evs.splitOn ";").mapM parseEv) with
-    | some i, some q, some es => "ok " ++ " ".intercalate (runShow (init i q) es)
+    | some i, some q, some es => "ok " ++ " ".intercalate (runShow (initX i q) es)
     | _, _, _ => "bad-op"
   | _ => "bad-op"
 
